@@ -347,10 +347,12 @@ class FakeLock:
         return True
 
     def release(self) -> None:
+        # the release itself is atomic (an injected interrupt must not land "inside" it and leak
+        # the lock); the scheduling point comes after it
         s = self.sched
-        s.point("release", self.role)
         self.owner = None
         s.log("release", self.role)
+        s.point("released", self.role)
 
     def locked(self) -> bool:
         return self.owner is not None
@@ -387,8 +389,19 @@ class FakeThread:
         lt = self.lt
         if lt is None:
             raise RuntimeError("cannot join thread before it is started")
-        self.sched.yield_(Pending("join", self.lname, alts=lambda: ["go"] if lt.done else []))
-        self.sched.log("join", self.lname)
+        s = self.sched
+        dl = None if timeout is None else s.now + timeout
+
+        def alts() -> list[str]:
+            if lt.done:
+                return ["go"]
+            if timeout is None:
+                return []
+            if s.timed:
+                return ["timeout"] if s.now >= dl else []
+            return ["timeout"]
+        alt = s.yield_(Pending("join", self.lname, alts=alts, deadline=dl, weight_low=True))
+        s.log("join" if alt == "go" else "join_timeout", self.lname)
 
     def is_alive(self) -> bool:
         return self.lt is not None and not self.lt.done
